@@ -1,5 +1,5 @@
 (* Proofs about Gen/Mutators.v: transparency of the mutators under a processor that changes nothing (C20). *)
-From BV Require Import Base.Prelude Gen.Coalg Gen.Mutators.
+From BV Require Import Base.Prelude Gen.Coalg Gen.Mutators Proofs.Coalg.
 
 (* the log a perfectly transparent wrapper leaves: one call to plan 0 per step, with the same input *)
 Definition ideal {P} (resume : P -> input -> outcome P) : P -> input -> outcome P * list call :=
@@ -170,26 +170,6 @@ Section PMId.
     - now rewrite Hl.
     - now rewrite Hl.
     - now rewrite Hl.
-  Qed.
-
-  Lemma ltrace_obs :
-    forall (Q : Type) (lr : Q -> input -> outcome Q * list call) s q,
-      map fst (ltrace lr q s) = trace (unlog lr) q s.
-  Proof.
-    induction s as [|i s IH]; intros q; [reflexivity|].
-    destruct i as [v|e|]; cbn [ltrace trace]; unfold unlog at 1.
-    - destruct (fst (lr q (Send v))); cbn; try reflexivity. f_equal. apply IH.
-    - destruct (fst (lr q (Throw e))); cbn; try reflexivity. f_equal. apply IH.
-    - reflexivity.
-  Qed.
-
-  Lemma trace_ext :
-    forall (Q : Type) (r1 r2 : Q -> input -> outcome Q), (forall q i, r1 q i = r2 q i) ->
-      forall s q, trace r1 q s = trace r2 q s.
-  Proof.
-    intros Q r1 r2 H. induction s as [|i s IH]; intros q; [reflexivity|].
-    destruct i; cbn [trace]; rewrite H; try reflexivity;
-      destruct (r2 q _); try reflexivity; f_equal; apply IH.
   Qed.
 
   (* every script, from the just-created wrapper, for a just-created plan: same observations *)
